@@ -12,6 +12,7 @@ from __future__ import annotations
 import json
 import multiprocessing as mp
 import os
+import re
 import time
 import zlib
 from collections import Counter
@@ -126,7 +127,159 @@ def judge_opt(ctx, text, k, expected):
     return out
 
 
-JUDGES = {"opt": judge_opt, "sem": judge_sem, "total": judge_total, "geninterp": judge_geninterp, "shift": judge_shift}
+def tree_checks(pairs, text, start, rule, names, tags, rule_silent):
+    """C06 API-level consistency of one Pairs object; returns (list of problems, token events)."""
+    import json as _json  # noqa: PLC0415
+
+    probs = []
+    toks = list(pairs.tokens())
+    events = [{"e": "B", "lo": start, "hi": len(text)}]
+    for t in toks:
+        events.append({"e": "S" if type(t).__name__ == "Start" else "E", "r": t.rule.name, "p": t.pos})
+    events.append({"e": "F"})
+    flat = list(pairs.flatten())
+    starts = [(t.rule.name, t.pos) for t in toks if type(t).__name__ == "Start"]
+    if [(p.name, p.start) for p in flat] != starts:
+        probs.append("flatten() is not the pre-order of tokens()")
+    for p in flat:
+        if p.text != text[p.start : p.end] or str(p) != p.text or p.as_str() != p.text:
+            probs.append(f"pair {p.name} text != input[start:end]")
+        if p.name not in names:
+            probs.append(f"pair name {p.name!r} is not a non-silent rule of the grammar (or EOI)")
+        if p.tag is not None and p.tag not in tags:
+            probs.append(f"tag {p.tag!r} is not written in the grammar")
+        if not (start <= p.start <= p.end <= len(text)):
+            probs.append(f"pair {p.name} span {p.start}..{p.end} outside [{start}, {len(text)}]")
+    if not rule_silent and (len(pairs) != 1 or pairs[0].name != rule or pairs[0].start != start):
+        probs.append("a non-silent start rule must yield exactly one root pair starting at start_pos")
+    try:
+        d = pairs.dump()
+        ds = pairs.dumps(compact=False)
+        pairs.dumps()
+        for p in flat:
+            p.dumps()
+        if _json.loads(ds) != d:
+            probs.append("dumps(compact=False) disagrees with dump()")
+
+        def walk(dd, ps):
+            if len(dd) != len(ps):
+                return False
+            return all(
+                x["rule"] == p.name and x["span"] == {"str": text[p.start : p.end], "start": p.start, "end": p.end} and x.get("node_tag") == p.tag and walk(x["inner"], p.children)
+                for x, p in zip(dd, ps)
+            )
+
+        if not walk(d, list(pairs)):
+            probs.append("dump() disagrees with the pairs")
+    except Exception as e:  # noqa: BLE001
+        probs.append(f"dump()/dumps() raised {type(e).__name__}: {e}")
+    return probs, events
+
+
+_tok_fh = None
+
+
+def _tok_sink():
+    global _tok_fh  # noqa: PLW0603
+    if _tok_fh is None:
+        d = C.OUT / "traces"
+        d.mkdir(parents=True, exist_ok=True)
+        _tok_fh = (d / f"c06_tok_{os.getpid()}.ndjson").open("a")
+    return _tok_fh
+
+
+def judge_tree(ctx, text, k, expected):
+    """C06: every returned tree is well-formed (tokens are logged for TLC's TokenTrace; API consistency here)."""
+    out = []
+    g = ctx["g"]
+    names = {n for n, r in g.items() if r["mod"] != "_"} | {"EOI"}
+    tags = {t["t"] for r in g.values() for t in gast.subterms(r["body"]) if t["k"] == "tag"}
+    for mode in ctx["modes"]:
+        o = M.run_parse(_pest, ctx["parsers"][mode], ctx["rule"], text, k, keep=True)
+        if o.get("ok") is not True:
+            continue
+        probs, events = tree_checks(o["_pairs"], text, k, ctx["rule"], names, tags, g[ctx["rule"]]["mod"] == "_")
+        for pr in probs:
+            out.append(("tree", {"mode": mode, "problem": pr}))
+        fh = _tok_sink()
+        for e in events:
+            fh.write(json.dumps(e) + "\n")
+        fh.flush()
+    return out
+
+
+_RE_LC = re.compile(r" -> (.*?) ?(-?\d+):(-?\d+)\n")
+_RE_SRC = re.compile(r"\n(\d+) \| (.*)\n")
+_err_fh = None
+_err_seen: set = set()
+
+
+def error_checks(err, text, start, names):
+    """C13 checks on one PestParsingError; returns (problems, event-for-TLC or None)."""
+    probs = []
+    st = err.state
+    p = st.furthest_pos
+    if not (p == -1 or start <= p <= len(text)):
+        probs.append(f"furthest_pos {p} outside [{start}, {len(text)}] and not the sentinel")
+    for what, d in (("expected", st.furthest_expected), ("unexpected", st.furthest_unexpected)):
+        for name in d:
+            if name not in names:
+                probs.append(f"{what} set names {name!r}, which is neither a rule of the grammar nor a built-in")
+    for fr in st.furthest_stack:
+        if fr.name not in names:
+            probs.append(f"rule stack names {fr.name!r}, which is neither a rule of the grammar nor a built-in")
+    ev = None
+    try:
+        s1 = str(err)
+        s2 = err.detailed_message()
+        repr(err)
+        if not isinstance(s1, str) or not isinstance(s2, str):
+            probs.append("str()/detailed_message() did not return a string")
+        elif p != -1:
+            m, m2 = _RE_LC.search(s2), _RE_SRC.search(s2)
+            if not m or not m2:
+                probs.append("message does not show a line:column and a source line")
+            else:
+                ev = {"text": [ord(c) for c in text], "start": start, "p": p, "line": int(m[2]), "col": int(m[3]), "shown": [ord(c) for c in m2[2]]}
+                if int(m2[1]) != int(m[2]):
+                    probs.append("line number of the source line shown differs from the line:column shown")
+    except Exception as e:  # noqa: BLE001
+        probs.append(f"rendering the error raised {type(e).__name__}: {e}")
+    return probs, ev
+
+
+def _err_sink():
+    global _err_fh  # noqa: PLW0603
+    if _err_fh is None:
+        d = C.OUT / "traces"
+        d.mkdir(parents=True, exist_ok=True)
+        _err_fh = (d / f"c13_err_{os.getpid()}.ndjson").open("a")
+    return _err_fh
+
+
+def judge_err(ctx, text, k, expected):
+    """C13: every failure carries a valid position, known rule names and a message that renders (line:col via TLC)."""
+    out = []
+    if "names13" not in ctx:
+        ctx["names13"] = set(ctx["g"]) | set(_pest.Parser.BUILTIN) | {"SKIP"}
+    for mode in ctx["modes"]:
+        o = M.run_parse(_pest, ctx["parsers"][mode], ctx["rule"], text, k, keep=True)
+        if o.get("ok") is not False:
+            continue
+        probs, ev = error_checks(o["_err"], text, k, ctx["names13"])
+        for pr in probs:
+            out.append(("error", {"mode": mode, "fpos": o["fpos"], "problem": pr}))
+        if ev is not None:
+            key = (text, ev["p"], ev["line"], ev["col"], tuple(ev["shown"]))
+            if key not in _err_seen:
+                _err_seen.add(key)
+                fh = _err_sink()
+                fh.write(json.dumps(ev) + "\n")
+                fh.flush()
+    return out
+
+
+JUDGES = {"err": judge_err, "tree": judge_tree, "opt": judge_opt, "sem": judge_sem, "total": judge_total, "geninterp": judge_geninterp, "shift": judge_shift}
 
 
 # ------------------------------------------------------------------------------------ worker
